@@ -51,7 +51,7 @@ def dedupFirst (l : List Nat) : List Nat := dedupAux [] l
 
 /-- `order_by_bases` -/
 def orderByBases (G : Graph) (ls : List Nat) : List Nat :=
-  let sorted := Sort.isort (leDesc G) ls
+  let sorted := PySort.isort (leDesc G) ls
   let gathered := sorted.flatMap (gather G)
   let rev := gathered.reverse
   (dedupFirst rev).filter (fun l => decide (l ∈ sorted))
